@@ -525,7 +525,7 @@ pub fn run(tier: Tier, replay: Option<&str>) {
         "capped": capped,
         "evaluations": ctx.evals(),
         "distinct_nontrivial": nontrivial.load(Ordering::Relaxed),
-        "rule": "(H) BFS over histories on one device instance per region x front-end x {ABP, OTAA, OTAA under a join bias with 1 / 8 retries (72-channel plans)}: uplinks (first RNG draw from a set), uplinks answered in RX1 or RX2 by RXParamSetupReq (valid: offset 1 / regional maximum, another RX2 data rate and frequency, back to the defaults; invalid in one field: RX2 data rate 14 (RFU in every region), out-of-band frequency, offset above the regional maximum), RXTimingSetupReq 0 / 2 / 15, DlChannelReq, NewChannelReq create / redefine / delete, LinkADRReq (mask down to the extra channel, all channels, lowest data rate), set_datarate lowest / highest, (nb) set_datarate between TX and the windows, unanswered join attempts and (re-)joins whose accept carries other DLSettings / RxDelay in RX1 or RX2; every transaction that transmits is judged against a reference model of the parameters in force (updated only by requests that are unambiguously valid) and the regional tables: RX1 frequency and data rate, RX2 frequency and data rate, Class C parameters, window size limits, window times (nb clock started shortly before its 2^32 ms wrap); states = distinct (device snapshot minus counters and keys, front-end state, reference model). Plus eight full sub-products per region and front-end (nb, async, async+Class C), each case a fresh real device brought into the configuration by authentic RXParamSetupReq / RXTimingSetupReq / DlChannelReq downlinks and set_datarate: (P1) every region-defined uplink data rate x RX1DROffset 0..7 x first RNG draw (all 64 for the 72-channel plans); (P2) RXTimingSetupReq delay 0..15 x board offset/lead {0,15,50,100} x TX end time; (P2b, nb) TX end times around 2^31 ms and the 2^32 ms wrap of the clock x delay x offset; (P3) all 16 RX2 data rate values x 2 frequencies x lowest/highest uplink rate; (P4) DlChannelReq on channels 0..3 x 2 frequencies x draws; (P5) joins under join-bias settings x draws; (P6, nb) set_datarate between TX and the windows; (P7) a re-join on a default channel after DlChannelReq remapped its downlink frequency; (P8) NewChannelReq, DlChannelReq, then a NewChannelReq redefining the same channel; (P9) DlChannelReq on a default channel, the mask reduced to an extra channel, that channel deleted (fallback to the default channels). non-trivial = cases with an installed override or a join",
+        "rule": "(H) BFS over histories on one device instance per region x front-end x {ABP, OTAA, OTAA under a join bias with 1 / 8 retries (72-channel plans)}: uplinks (first RNG draw from a set), uplinks answered in RX1 or RX2 by RXParamSetupReq (valid: offset 1 / regional maximum, another RX2 data rate and frequency, back to the defaults; invalid in one field: RX2 data rate 14 (RFU in every region), out-of-band frequency, offset above the regional maximum), RXTimingSetupReq 0 / 2 / 15, DlChannelReq, NewChannelReq create / redefine / delete, LinkADRReq (mask down to the extra channel, all channels, lowest data rate), set_datarate lowest / highest, (nb) set_datarate between TX and the windows, (async) a radio call of the uplink failing once, (Class C) a continuous reception between the windows reporting an error, unanswered join attempts and (re-)joins whose accept carries other DLSettings / RxDelay in RX1 or RX2; every transaction that transmits is judged against a reference model of the parameters in force (updated only by requests that are unambiguously valid) and the regional tables: RX1 frequency and data rate, RX2 frequency and data rate, Class C parameters, window size limits, window times (nb clock started shortly before its 2^32 ms wrap); states = distinct (device snapshot minus counters and keys, front-end state, reference model). Plus eight full sub-products per region and front-end (nb, async, async+Class C), each case a fresh real device brought into the configuration by authentic RXParamSetupReq / RXTimingSetupReq / DlChannelReq downlinks and set_datarate: (P1) every region-defined uplink data rate x RX1DROffset 0..7 x first RNG draw (all 64 for the 72-channel plans); (P2) RXTimingSetupReq delay 0..15 x board offset/lead {0,15,50,100} x TX end time; (P2b, nb) TX end times around 2^31 ms and the 2^32 ms wrap of the clock x delay x offset; (P3) all 16 RX2 data rate values x 2 frequencies x lowest/highest uplink rate; (P4) DlChannelReq on channels 0..3 x 2 frequencies x draws; (P5) joins under join-bias settings x draws; (P6, nb) set_datarate between TX and the windows; (P7) a re-join on a default channel after DlChannelReq remapped its downlink frequency; (P8) NewChannelReq, DlChannelReq, then a NewChannelReq redefining the same channel; (P9) DlChannelReq on a default channel, the mask reduced to an extra channel, that channel deleted (fallback to the default channels). non-trivial = cases with an installed override or a join",
         "samples": [serde_json::to_value(&cases[0]).unwrap(), serde_json::to_value(&cases[cases.len() / 2]).unwrap(), serde_json::to_value(cases.last().unwrap()).unwrap()],
         "exhaustive": !capped,
         "regions": regions,
@@ -561,6 +561,11 @@ pub enum WEv {
     UpDrBetween { d: u8 },
     JoinTry { draw: u32 },
     JoinOk { dl_settings: u8, rx_delay: u8, window: u8 },
+    /// async: uplink during which the `k`-th radio call fails once (a failed continuous reception between the
+    /// windows must not move them)
+    UpFault { k: usize },
+    /// async + Class C: the continuous reception before RX1 (1) / before RX2 (2) reports an error
+    UpRxcError { which: u8 },
 }
 
 #[derive(Clone, Debug, PartialEq, Eq, Hash)]
@@ -678,6 +683,8 @@ struct Seen {
     ts: u64,
     before: Option<VerifMac>,
     panic: Option<String>,
+    /// the public call returned an error (a radio fault the call does not survive): nothing to judge
+    failed: bool,
 }
 
 fn judge_history_tx(region: &str, front: &str, dev: &DevCfg, model: &WModel, o: &Seen) -> Vec<(String, String)> {
@@ -800,12 +807,14 @@ pub struct WSys {
     joined: bool,
     n_tx: u32,
     outcome: String,
+    /// the next transaction's continuous reception before RX1 (1) / RX2 (2) reports an error
+    rxc_error: u8,
 }
 
 impl WSys {
     pub fn new(front: &str, dev: &DevCfg) -> Self {
         let (nb, ac) = if front == "nb" { (Some(NbCore::new(dev)), None) } else { (None, Some(ACore::new(dev, front == "async-c"))) };
-        WSys { nb, ac, front: front.into(), dev: dev.clone(), model: WModel::fresh(&dev.region), joined: !dev.otaa, n_tx: 0, outcome: String::new() }
+        WSys { nb, ac, front: front.into(), dev: dev.clone(), model: WModel::fresh(&dev.region), joined: !dev.otaa, n_tx: 0, outcome: String::new(), rxc_error: 0 }
     }
 
     fn snap(&self) -> VerifMac {
@@ -817,8 +826,9 @@ impl WSys {
     }
 
     /// Runs one transaction and collects what the radio and the timer were asked to do.
-    fn transact(&mut self, join: bool, draw: u32, rx1: Option<Frame>, rx2: Option<Frame>, dr_between: Option<u8>) -> Seen {
-        let mut o = Seen { join, tx: None, rx: vec![], rxc: vec![], rxc_after: vec![], times: vec![], ts: 0, before: None, panic: None };
+    fn transact(&mut self, join: bool, draw: u32, rx1: Option<Frame>, rx2: Option<Frame>, dr_between: Option<u8>, fault_at: Option<usize>) -> Seen {
+        let rxc_error = std::mem::take(&mut self.rxc_error);
+        let mut o = Seen { join, tx: None, rx: vec![], rxc: vec![], rxc_after: vec![], times: vec![], ts: 0, before: None, panic: None, failed: false };
         self.n_tx += 1;
         if let Some(core) = &mut self.nb {
             core.apply(&Ev::Rng(if join { vec![0x1234, draw] } else { vec![draw] }));
@@ -857,7 +867,7 @@ impl WSys {
             o.ts = ts;
             core.apply(&AEv::Rng(if join { vec![0x1234, draw] } else { vec![draw] }));
             o.before = Some(core.snap());
-            let script = Script { rx1, rx2, ..Default::default() };
+            let script = Script { rx1, rx2, fault_at, rxc1_fail: rxc_error == 1, rxc2_fail: rxc_error == 2, ..Default::default() };
             let ev = if join { AEv::Join(script) } else { AEv::Send { confirmed: false, port: 1, len: 1, script } };
             match core.apply(&ev) {
                 None => o.panic = Some("dead".into()),
@@ -865,6 +875,7 @@ impl WSys {
                     if let AResp::Panic(p) = &st.resp {
                         o.panic = Some(p.clone());
                     }
+                    o.failed = matches!(st.resp, AResp::ErrRadio | AResp::ErrMac(_));
                     for op in &st.ops {
                         match op {
                             AOp::Tx { rf, .. } => o.tx = Some(rf.clone()),
@@ -948,6 +959,13 @@ fn w_alphabet(region: &str, nb: bool, joined: bool, otaa: bool) -> Vec<WEv> {
     if nb {
         v.push(WEv::UpDrBetween { d: lo_dr });
         v.push(WEv::UpDrBetween { d: hi_dr });
+    } else {
+        // radio calls of an uplink: tx, [continuous set-up, continuous reception,] RX1 set-up, RX1, ...
+        for k in 1..9usize {
+            v.push(WEv::UpFault { k });
+        }
+        v.push(WEv::UpRxcError { which: 1 });
+        v.push(WEv::UpRxcError { which: 2 });
     }
     if otaa {
         v.push(WEv::JoinTry { draw: draws[1] });
@@ -972,16 +990,21 @@ impl System for WSys {
         let ja = |dl: u8, rd: u8, n: u32| Frame::JoinAccept { join_nonce: 0x20 + n, net_id: 0x13, devaddr: DEVADDR, dl_settings: dl, rx_delay: rd, cflist: None, tamper: Tamper::None, trunc: 0 };
         let model_before = self.model.clone();
         let o = match ev {
-            WEv::Up { draw } => self.transact(false, *draw, None, None, None),
+            WEv::Up { draw } => self.transact(false, *draw, None, None, None, None),
             WEv::Cmd { bytes, window, .. } => {
                 let f = Some(down(bytes));
-                if *window == 1 { self.transact(false, 0, f, None, None) } else { self.transact(false, 0, None, f, None) }
+                if *window == 1 { self.transact(false, 0, f, None, None, None) } else { self.transact(false, 0, None, f, None, None) }
             }
-            WEv::UpDrBetween { d } => self.transact(false, 0, None, None, Some(*d)),
-            WEv::JoinTry { draw } => self.transact(true, *draw, None, None, None),
+            WEv::UpDrBetween { d } => self.transact(false, 0, None, None, Some(*d), None),
+            WEv::UpFault { k } => self.transact(false, 0, None, None, None, Some(*k)),
+            WEv::UpRxcError { which } => {
+                self.rxc_error = *which;
+                self.transact(false, 0, None, None, None, None)
+            }
+            WEv::JoinTry { draw } => self.transact(true, *draw, None, None, None, None),
             WEv::JoinOk { dl_settings, rx_delay, window } => {
                 let f = Some(ja(*dl_settings, *rx_delay, self.n_tx));
-                if *window == 1 { self.transact(true, 0, f, None, None) } else { self.transact(true, 0, None, f, None) }
+                if *window == 1 { self.transact(true, 0, f, None, None, None) } else { self.transact(true, 0, None, f, None, None) }
             }
             WEv::SetDr(d) => {
                 if let Some(c) = &mut self.nb {
@@ -997,6 +1020,10 @@ impl System for WSys {
         if let Some(p) = &o.panic {
             out.push(V { sig: format!("C10|{front}|panic|{}", panic_site(p)), what: p.clone() });
             self.outcome = "panic".into();
+            return out;
+        }
+        if o.failed {
+            self.outcome = "radio-error".into();
             return out;
         }
         for (sig, what) in judge_history_tx(&region, &front, &self.dev, &model_before, &o) {
